@@ -201,6 +201,8 @@ char *get_tmp_dir(char *old_dir) {
 int main (int argc, char *argv[]) {
     struct arguments arguments = {0};
 
+    ensure_std_fds();
+
     /* Defaults */
     arguments.log_level = ZCK_LOG_ERROR;
 
